@@ -185,6 +185,22 @@ def ob_two_strings():
     return h
 
 
+def ob_escapes(kind, n):
+    """escape sequences in a single-quoted literal that the escape REGEX accepts but the decoder may reject: \\N{name} with an unknown / malformed name,
+    \\U with a value above 0x10FFFF. StringNode() decodes while the parser builds the tree: whatever the body spells, only a located ParseException may
+    come out (found: UnicodeDecodeError escaped; fixed in 922fd57)"""
+    def h():
+        q = ["'", "f'"][choose(2, 'q')]
+        if kind == 'N':
+            body = sym_str(n, 'b', alphabet='\\N{}OXa')
+        else:
+            body = sym_str(choose(2, 'pre'), 'p', alphabet='a\\') + '\\' + sym_str(1, 'k', alphabet='Uux') + sym_str(n, 'h', alphabet='01Ffg')
+        where = choose(2, 'ctx')
+        text = ('x = ' + q + body + "'\n") if where == 0 else ('f(' + q + body + "', [1])\n")
+        check_text(text, 'accept')
+    return h
+
+
 def obligations(tier):
     q = tier == 'quick'
     out = []
@@ -197,5 +213,11 @@ def obligations(tier):
             out.append(Obligation('window[%s,%d]' % (ctx[0], w), ob_window(ctx, w), dict(context=ctx[1] + '<W>' + ctx[2], window=w, alphabet=TOK), labels=('accept', 'parse-reject'), max_paths=30000000, classify=classify))
     for k in range(4):
         out.append(Obligation('skeleton[%d]' % k, ob_skeleton(k), dict(template=k, string_body='<=2 over {a,newline,quote,space,backslash}', trivia='4 kinds'), labels=('accept', 'extent'), max_paths=8000000))
+    for n in ((4, 5, 6) if q else (4, 5, 6, 7)):
+        out.append(Obligation('escapes[N,%d]' % n, ob_escapes('N', n), dict(literal="'...' | f'...'", body='%d characters over \\ N { } O X a' % n, context='assignment | call argument'),
+                              labels=('accept', 'parse-reject') if n >= 5 else ('accept',), max_paths=8000000))
+    for n in ((2, 4, 8) if q else (2, 4, 8, 9)):
+        out.append(Obligation('escapes[U,%d]' % n, ob_escapes('U', n), dict(literal="'...' | f'...'", body='0-1 of {a, \\} + \\ + one of U u x + %d characters over 0 1 F f g' % n, context='assignment | call argument'),
+                              labels=('accept', 'parse-reject') if n >= 8 else ('accept',), max_paths=8000000))
     out.append(Obligation('two-strings', ob_two_strings(), dict(literals=2, kinds="''' f''' ' f'", body='<=2 over {a, newline, space}', between='newline | comma | blank line'), labels=('accept', 'extent'), max_paths=8000000))
     return out
